@@ -92,6 +92,14 @@ def make_monitor(ctx):
                 return ("'Tests with failures' lists tests %r, failures happened in %r" % (got_f, sorted(want_f)), "C12:fail-names")
             if got_e != sorted(want_e):
                 return ("'Tests with errors' lists tests %r, errors happened in %r" % (got_e, sorted(want_e)), "C12:err-names")
+            # the listed names are the tests' own names (blanks and tabs inside them included)
+            for n in parsed["fail_names"] + parsed["err_names"]:
+                m = re.match(r"t(\d+) ", n)
+                if m and tests[int(m.group(1))].get("label") in WS_LABELS:
+                    t_ = tests[int(m.group(1))]
+                    want_name = "t%d (%s) %s" % (t_["id"], t_.get("module", "wtests"), t_["label"])
+                    if n != want_name and not n.startswith(want_name + " (") and not n.startswith(want_name + " ["):
+                        return ("the lists name %r, the test is called %r" % (n, want_name), "C12:name-altered")
             n_layer_names = sum(1 for n in parsed["err_names"] if n.startswith("Layer:"))
             if n_layer_names != layer_failures:
                 return ("%d layer failures listed, %d happened" % (n_layer_names, layer_failures), "C12:layer-names")
@@ -177,10 +185,55 @@ def directed_skips(ctx):
     return cases
 
 
+def directed_teardown(ctx):
+    """a tear-down pass in which one layer's tearDown raises and a base of it cannot be torn down at all
+    (NotImplementedError), followed by another layer: the raised error is an error of the run, the rest is resumed"""
+    rng = ctx.rng
+    cases = []
+    for i in range(3 if ctx.quick() else 30):
+        w = worlds.gen_world(rng, n_layers=3, tests_per_layer=(1, 2), kinds=["pass", "pass", "fail"], p_fault=0.0, p_write=0.0)
+        real = [k for k, l in enumerate(w["layers"]) if l["kind"] != "unit"]
+        if len(real) < 3:
+            continue
+        a, b, c_ = real[:3]
+        for k, (nm, bases) in zip((a, b, c_), (("A", []), ("B", [a]), ("C", []))):
+            l = w["layers"][k]
+            l.update({"kind": "instance", "name": nm, "module": "wlayers", "bases": bases, "setUp": True, "tearDown": True,
+                      "setUpRaises": [], "tearDownFaults": [], "excStyle": None})
+            l.pop("falsy", None)
+        w["layers"][a]["tearDownFaults"] = [[999999, 2]]
+        w["layers"][b]["tearDownFaults"] = [[999999, 1]]
+        # B (and with it A) must have tests, and so must C
+        lay_of = {t["layer"] for t in w["tests"]}
+        if b not in lay_of or c_ not in lay_of:
+            continue
+        cases.append(cw.Case(w, {"verbose": rng.choice([1, 2])}, "directed:teardown-pass"))
+    return cases
+
+
+WS_LABELS = ["tab\there", "two  spaces", "a \t b"]
+
+
+def directed_whitespace(ctx):
+    """failing tests whose names contain tabs and runs of blanks, reported by layer subprocesses: the lists name the
+    tests as they are called"""
+    rng = ctx.rng
+    cases = []
+    for i in range(3 if ctx.quick() else 30):
+        w = worlds.gen_world(rng, n_layers=rng.choice([2, 3]), tests_per_layer=(1, 3), p_fault=0.0, p_write=0.0,
+                             kinds=["fail", "error", "pass", "subFail"])
+        for t in w["tests"]:
+            for k in ("rebind", "ownstream", "doctest"):
+                t.pop(k, None)
+            t["label"] = WS_LABELS[(i + t["id"]) % len(WS_LABELS)]
+        cases.append(cw.Case(w, {"verbose": rng.choice([1, 2]), "processes": rng.choice([2, 3])}, "directed:whitespace-names"))
+    return cases
+
+
 def gen_cases(ctx):
     rng = ctx.rng
     n = 80 if ctx.quick() else 2000
-    cases = directed_names(ctx) + directed_skips(ctx)
+    cases = directed_names(ctx) + directed_skips(ctx) + directed_teardown(ctx) + directed_whitespace(ctx)
     for i in range(n):
         w = worlds.gen_world(rng, tests_per_layer=(0, 4), p_fault=0.15, p_write=0.0, import_errors=True)
         if rng.random() < 0.3:
